@@ -190,6 +190,21 @@ def check_handler(s, cs, ev=None, with_template=False):
         except Exception as e:
             raise fail("htmlentityreplace/%s/template" % cs, s, "raised %r" % e, "handler:raised")
         check_handler_bytes(s, cs, out2, "template")
+        # the same through a def rendered on its own and through a lookup-wide configuration
+        try:
+            from mako.lookup import TemplateLookup
+
+            t2 = Template('<%def name="cell(v)">${v}</%def>', output_encoding=cs, encoding_errors="htmlentityreplace", default_filters=[])
+            out3 = t2.get_def("cell").render(v=s)
+            lk = TemplateLookup(output_encoding=cs, encoding_errors="htmlentityreplace", default_filters=[])
+            lk.put_string("/c10cell.html", '<%def name="cell(v)">${v}</%def>${v}')
+            out4 = lk.get_template("/c10cell.html").render(v=s)
+            out5 = lk.get_template("/c10cell.html").get_def("cell").render(v=s)
+        except Exception as e:
+            raise fail("htmlentityreplace/%s/get_def" % cs, s, "raised %r" % e, "handler:raised:get_def")
+        check_handler_bytes(s, cs, out3, "get_def")
+        check_handler_bytes(s, cs, out4, "lookup")
+        check_handler_bytes(s, cs, out5, "lookup-get_def")
     return nt
 
 
